@@ -58,6 +58,10 @@ func childMain() {
 		failedStartChild(strings.TrimPrefix(*childFile, "failedstart:"))
 		return
 	}
+	if strings.HasPrefix(*childFile, "deepreturn:") {
+		deepReturnChild(strings.TrimPrefix(*childFile, "deepreturn:"))
+		return
+	}
 	if strings.HasPrefix(*childFile, "reentrant:") {
 		reentrantChild(strings.TrimPrefix(*childFile, "reentrant:"))
 		return
